@@ -86,6 +86,8 @@ BEGIN
                      'jf_old', json_extract(old.context,'$._join_fired'),
                      'jf_new', json_extract(new.context,'$._join_fired'),
                      'jc_new', json_extract(new.context,'$._jump_count'),
+                     'act_old', json_extract(old.context,'$._activated_branches'),
+                     'start_new', new.start_time,
                      'parent', new.parent_stage_id, 'exec', new.execution_id),
          sim_ctx());
 END;
@@ -268,6 +270,7 @@ class World:
         self.event_store: Any = None
         self.closed = False
         self.on_commit_hook: Callable[[CommitRec], None] | None = None
+        self.delivery: tuple[str, int] | None = None   # (message type, commit_count at poll) of the in-flight delivery
         self.task_yield: Callable[[str], None] | None = None
         seams.CURRENT = self
         self._install_ulid()
@@ -401,9 +404,47 @@ class World:
         self.crash_at = None
         self.crashes.append({"commit": n, "when": when, "inc": self.incarnation,
                              "ctx": self.ctx_string(), "t_us": self.clock.us,
-                             "ledger_len": len(self.ledger)})
+                             "ledger_len": len(self.ledger), "site": self.crash_site(n, when)})
         self.fault("crash")
         raise SimCrash(f"crash {when} commit {n}")
+
+    def crash_site(self, n: int, when: str) -> str:
+        """Semantic name of the crash point: the in-flight message type plus what its handling has
+        already made durable, commit by commit (L lock/poll, S>x stage status, T>x task status,
+        W>x workflow status, I stage insert, Q(types) queue inserts, P processed mark, D queue delete)."""
+        if self.delivery is None:
+            return "idle:" + self.ctx_string().split("|")[2]
+        mtype, c0 = self.delivery
+        last = n - 1 if when == "before" else n
+        codes = []
+        for c in self.commits:
+            if c.n <= c0 or c.n > last or c.inc != self.incarnation:
+                continue
+            rows = self.hquery("SELECT kind, old, new FROM sim_audit WHERE seq > ? AND seq <= ? ORDER BY seq", (c.lo, c.hi))
+            code = ""
+            qs = []
+            for r in rows:
+                k = r["kind"]
+                if k == "q_lock" and "L" not in code:
+                    code += "L"
+                elif k == "stage" and r["old"] != r["new"]:
+                    code += "S>" + str(r["new"])[:4]
+                elif k == "task" and r["old"] != r["new"]:
+                    code += "T>" + str(r["new"])[:4]
+                elif k == "wf" and r["old"] != r["new"]:
+                    code += "W>" + str(r["new"])[:4]
+                elif k == "stage_ins" and "I" not in code:
+                    code += "I"
+                elif k == "q_ins":
+                    qs.append(str(r["new"]))
+                elif k == "pm_ins" and "P" not in code:
+                    code += "P"
+                elif k == "q_del" and "D" not in code:
+                    code += "D"
+            if qs:
+                code += "Q(" + ",".join(sorted(set(qs))) + ")"
+            codes.append(code or "-")
+        return mtype + ":" + "|".join(codes)
 
     # ------------------------------------------------------------------
     # incarnations
@@ -475,11 +516,15 @@ class World:
         if first:
             self.queue._create_table()
             self._install_audit()
-        self.handler_config = HandlerConfig(
-            concurrency_max_retries=k.concurrency_max_retries,
-            handler_retry_delay_seconds=k.handler_retry_delay_s,
-            max_stage_wait_retries=k.max_stage_wait_retries,
-        )
+        # documented configuration seam: environment variables read by HandlerConfig.from_env()
+        os.environ["STABILIZE_HANDLER_MAX_RETRIES"] = str(k.concurrency_max_retries)
+        os.environ["STABILIZE_HANDLER_RETRY_DELAY_S"] = str(k.handler_retry_delay_s)
+        os.environ["STABILIZE_MAX_STAGE_WAIT_RETRIES"] = str(k.max_stage_wait_retries)
+        from stabilize.resilience.config import get_handler_config, reset_handler_config
+
+        reset_handler_config()
+        self.handler_config = get_handler_config()
+        assert self.handler_config.max_stage_wait_retries == k.max_stage_wait_retries
         self.registry = TaskRegistry()
         if self.program is not None:
             self.program.install(self)
@@ -622,8 +667,10 @@ class World:
         return [dict(r) for r in self.hquery("SELECT * FROM queue_messages_dlq ORDER BY id")]
 
     def record_execution(self, key: str, stage: Any, result: str) -> dict[str, Any]:
+        arm = self.hquery("SELECT count(*) AS c FROM sim_audit WHERE kind='stage' AND row_id=? AND new='NOT_STARTED' "
+                          "AND old IS NOT 'NOT_STARTED'", (stage.id,))[0]["c"]
         e = {
-            "i": len(self.ledger), "key": key, "stage_ref": stage.ref_id, "stage_id": stage.id,
+            "i": len(self.ledger), "key": key, "stage_ref": stage.ref_id, "stage_id": stage.id, "arm": arm,
             "inc": self.incarnation, "worker": self.current_worker(), "t_us": self.clock.us,
             "commit_count": self.commit_count, "audit_seq": self.durable_seq,
             "ctx": copy.deepcopy(stage.context), "result": result,
